@@ -56,6 +56,7 @@ def forge_stream(ctx):
         cfgs = [c for c in cfgs if (c["sig"], c["enc"]) in (("minisign", ""), ("pgp", ""), ("minisign", "age"), ("pgp", "pgp"))]
     jobs = [{"history": {"config": c, "blobs": [{"seed": 1, "len": 700}, {"seed": 2, "len": 10}, {"seed": 3, "len": 1300}], "obs": [], "calls": FORGE_HISTORY},
              "struct": True, "maxflip": 40 if quick else 0, "flips": [] if quick else [-1], "seed": ctx.seed} for c in cfgs]
+    jobs = streams.replay_override(ctx, "job", jobs)
     with ThreadPoolExecutor(max_workers=3) as ex:
         res = list(ex.map(lambda j: run_cmd("forge", j, timeout=6000), jobs))
     data = [dict(job=j, out=o, rc=rc, err=e) for j, (o, rc, e) in zip(jobs, res)]
@@ -119,6 +120,7 @@ def markers_stream(ctx):
     if quick:
         cfgs = [c for c in cfgs if (c["comp"], c["sig"]) in (("", ""), ("gzip", "minisign"), ("", "pgp"))]
     jobs = [marker_history(rng, c) for c in cfgs]
+    jobs = streams.replay_override(ctx, "job", jobs)
     with ThreadPoolExecutor(max_workers=6) as ex:
         res = list(ex.map(lambda j: run_cmd("markers", j, timeout=1200), jobs))
     data = [dict(job=j, out=o, rc=rc, err=e) for j, (o, rc, e) in zip(jobs, res)]
@@ -222,6 +224,8 @@ def matrix_stream(ctx):
         kinds = ["", "zeros", "text"] if not quick else [rng.choice(["", "zeros", "text"])]
         cache = rng.choice(["file", "memory"])
         hs.append(matrix_history(dict(c, rs=rs, cache=cache), sizes, kinds))
+    hs = streams.replay_override(ctx, "history", hs)
+    hs = [h for h in hs if "expect" in h]
     res = hist.run_many(hs, workers=10, timeout=600)
     data = [dict(h=h, res=r, rc=rc, err=e[-600:]) for h, (r, rc, e) in zip(hs, res)]
     streams.cache_put(p, data)
@@ -290,6 +294,7 @@ def codec_stream(ctx):
         for enc in (("", "age") if quick else ("", "age", "pgp")):
             jobs.append(dict(comps=[comp], levels=LEVELS, encs=[enc], sigs=["", "minisign", "pgp"],
                              rs=[1, 20, 128, 512] if quick else [1, 2, 3, 7, 20, 64, 128, 256, 512, 2048, 8192], regular=[True, False], blobs=blobs))
+    jobs = [j for j in streams.replay_override(ctx, "job", jobs) if "comps" in j]
     with ThreadPoolExecutor(max_workers=14) as ex:
         res = list(ex.map(lambda j: run_cmd("codec", j, timeout=3000), jobs))
     data = [dict(job=j, out=o, rc=rc, err=e[-400:]) for j, (o, rc, e) in zip(jobs, res)]
